@@ -508,7 +508,7 @@ def shift_geometry(g, dx=0.0, dy=0.0):
 
 # ---- variables
 
-EXTRA_DIM_CHOICES = [("time", 1, 3), ("depth", 2, 4), ("index", 1, 2), ("index_0", 1, 2),
+EXTRA_DIM_CHOICES = [("time", 1, 3), ("depth", 2, 4), ("index", 1, 2), ("index_0", 1, 2), ("Two", 2, 2),
                      ("point", 1, 2), ("n", 1, 2)]
 
 
@@ -660,6 +660,8 @@ def dataset_spec(draw, convs=ALL_CONVS, max_vars=3, min_vars=1, max_extra=2,
     spec["extra"] = draw(extra_dims(max_extra)) if with_vars else {}
     # the dimension name must not clash with grid dimension names
     taken = {d for dims in specs.grid_dims(spec).values() for d in dims}
+    if conv == "ugrid":
+        taken |= set(spec["geom"]["enc"]["dims"].values())       # also the table-width dimensions
     spec["extra"] = {k: v for k, v in spec["extra"].items() if k not in taken}
     if conv == "shoc_simple" and "time" in spec["extra"]:
         # SHOC simple files always carry a 'time' coordinate variable for their 'time'
